@@ -395,7 +395,7 @@ func Simulate(from ssa.Instruction, skipFirst bool, init func(*simState), visit 
 				res.Paths++
 				return
 			}
-			if v, ok := in.(ssa.Value); ok && !isLenCall(v) {
+			if v, ok := in.(ssa.Value); ok && !isLenCall(v) && visits[b] > 1 {
 				// (re)computed on this path: facts from an earlier loop iteration are stale
 				delete(st.nl, v)
 				delete(st.lo, v)
